@@ -27,6 +27,7 @@ thread_local! {
     static ATTACKS: Cell<u64> = const { Cell::new(0) };
     static RELEASES: Cell<u64> = const { Cell::new(0) };
     static ZERO_TIME: Cell<u64> = const { Cell::new(0) };
+    static NEG_ZERO_TIME: Cell<u64> = const { Cell::new(0) };
     static MIDSTREAM: Cell<u64> = const { Cell::new(0) };
 }
 fn ev(n: u64) {
@@ -263,6 +264,9 @@ where
             }
             if frames_used == 0.0 {
                 bump(&ZERO_TIME);
+                if frames_used.is_sign_negative() {
+                    bump(&NEG_ZERO_TIME);
+                }
                 if !o_s.same(d_s) && ov != dv {
                     fail!("zero_time_not_equal_to_detected", "step {} channel {}: out {:?}, detected {:?} with {} time 0", step, c, o_s, d_s, if attack { "attack" } else { "release" });
                 }
@@ -356,7 +360,9 @@ fn amp(p: &str, i: usize, n: usize, rng: &mut Rng) -> f64 {
 }
 
 fn sched_for(rng: &mut Rng, n: usize, which: usize) -> Sched {
-    let times = [0.0f32, 0.5, 1.0, 3.0, 10.0, 64.0, 1000.0, 0.01];
+    // non-negative times, including the IEEE corner cases a `== 0.0` / `>= 0.0` guard meets:
+    // negative zero (equal to zero, satisfies >= 0), subnormals, the smallest normal, huge values
+    let times = [0.0f32, 0.5, 1.0, 3.0, 10.0, 64.0, 1000.0, 0.01, -0.0, f32::from_bits(1), f32::MIN_POSITIVE, 1e-30, f32::EPSILON, 1e30, f32::MAX, 0.0];
     let pick = |rng: &mut Rng| times[rng.usize_below(times.len())];
     let (mut a, mut r) = (pick(rng), pick(rng));
     while a == r {
@@ -451,6 +457,7 @@ fn flush(rep: &mut Report) {
     rep.hit_n("attack_steps", ATTACKS.with(|c| c.replace(0)));
     rep.hit_n("release_steps", RELEASES.with(|c| c.replace(0)));
     rep.hit_n("zero_time_steps", ZERO_TIME.with(|c| c.replace(0)));
+    rep.hit_n("negative_zero_time_steps", NEG_ZERO_TIME.with(|c| c.replace(0)));
     rep.hit_n("mid_stream_parameter_changes", MIDSTREAM.with(|c| c.replace(0)));
 }
 
@@ -469,7 +476,7 @@ fn main() {
         flush(&mut rep);
         checks::finish(&cli, rep, t0);
     }
-    for o in ["attack_steps", "release_steps", "zero_time_steps", "mid_stream_parameter_changes"] {
+    for o in ["attack_steps", "release_steps", "zero_time_steps", "negative_zero_time_steps", "mid_stream_parameter_changes"] {
         rep.oblige(o, 1);
     }
     rectifiers(&mut rep, cli.seed, cli.t(100_000, 3_000_000));
